@@ -218,6 +218,55 @@ func runC08(o Opts) error {
 			}
 		}
 	}
+	// two clients of the process sharing one fixed bind PORT under different bind addresses (0.0.0.0 and 127.0.0.1), calls
+	// overlapping in time, replies arriving in both orders: each call still gets the reply to its own request
+	if s.ReplayWants("two-clients") {
+		p := freeUDPPort()
+		ctl := uint32(900500001)
+		uA := farmClientBind(farm, netip.AddrPortFrom(netip.IPv4Unspecified(), uint16(p)), netT, []uint32{ctl}, nil)
+		uB := farmClientBind(farm, netip.AddrPortFrom(netip.AddrFrom4([4]byte{127, 0, 0, 1}), uint16(p)), netT, []uint32{ctl}, nil)
+		for round := 0; round < 2; round++ {
+			for attempt := 0; attempt < 2; attempt++ {
+				nextIndex += 2
+				ia, ib := nextIndex-1, nextIndex
+				da, db := 120*time.Millisecond, 30*time.Millisecond
+				if round == 1 {
+					da, db = db, da
+				}
+				farm.Plan(ia, Behaviour{Delay: da})
+				farm.Plan(ib, Behaviour{Delay: db})
+				var wg sync.WaitGroup
+				var ra, rb string
+				one := func(u uhppote.IUHPPOTE, idx uint32, out *string) {
+					defer wg.Done()
+					e, err := u.GetEvent(ctl, idx)
+					switch {
+					case err != nil || e == nil:
+						*out = "error"
+					case e.Index == idx:
+						*out = "own"
+					default:
+						*out = fmt.Sprintf("crossed:%d", e.Index)
+					}
+				}
+				wg.Add(2)
+				go one(uA, ia, &ra)
+				time.Sleep(10 * time.Millisecond)
+				go one(uB, ib, &rb)
+				wg.Wait()
+				totalCalls += 2
+				if ra == "own" && rb == "own" {
+					break
+				}
+				if attempt == 1 {
+					s.Fail(map[string]any{"op": "two-clients", "scenario": "same fixed bind port, bind addresses 0.0.0.0 and 127.0.0.1", "results": []string{ra, rb}},
+						fmt.Sprintf("two clients sharing a fixed bind port under different bind addresses: results %s / %s (each controller answered its own request within the timeout)", ra, rb))
+				}
+				time.Sleep(netT)
+			}
+		}
+		s.Extra["two_clients_one_port"] = "ran"
+	}
 	s.Extra["calls"] = totalCalls
 	s.Extra["timeout_ms"] = ms(netT)
 
